@@ -104,6 +104,13 @@ def load_catalogue(prop: str) -> List[Dict]:
                 if m.get("property") == prop:
                     exp = "fire" if prop in (m.get("detected_by") or []) else "miss"
                     out.append({"prop": prop, "id": f"seeded/{d}", "patch": patch, "expect": exp, "rule": None})
+    # behaviour-preserving refactors written by independent sub-agents (round 3): every property's check must stay silent on every one
+    rd = os.path.join(VERIF, "refactors")
+    if os.path.isdir(rd):
+        for d in sorted(os.listdir(rd)):
+            patch = os.path.join(rd, d, "patch.diff")
+            if os.path.exists(patch):
+                out.append({"prop": prop, "id": f"refactors/{d}", "patch": patch, "expect": "silent", "rule": None})
     return out
 
 
